@@ -671,6 +671,50 @@ class Repo:
             except Exception:
                 raise NotConst('binop')
             raise NotConst('binop')
+        if isinstance(e, ast.BoolOp):
+            # ``a or b`` / ``a and b`` over constants (truthiness of 0, '' and None decides, as at run time)
+            r = None
+            for x in e.values:
+                r = self.fold(x, m, cls, env, d)
+                if isinstance(r, (ClassRef, FuncRef, ModRef, ExtRef, BoundMethod, StructVal)):
+                    truth = True
+                else:
+                    truth = bool(r)
+                if isinstance(e.op, ast.Or) and truth:
+                    return r
+                if isinstance(e.op, ast.And) and not truth:
+                    return r
+            return r
+        if isinstance(e, ast.IfExp):
+            c0 = self.fold(e.test, m, cls, env, d)
+            return self.fold(e.body if c0 else e.orelse, m, cls, env, d)
+        if isinstance(e, ast.Compare) and len(e.ops) == 1:
+            a, b = self.fold(e.left, m, cls, env, d), self.fold(e.comparators[0], m, cls, env, d)
+            op = e.ops[0]
+            try:
+                if isinstance(op, ast.Eq):
+                    return a == b
+                if isinstance(op, ast.NotEq):
+                    return a != b
+                if isinstance(op, ast.Is):
+                    return a is b or (a is None and b is None)
+                if isinstance(op, ast.IsNot):
+                    return not (a is b or (a is None and b is None))
+                if isinstance(op, ast.Lt):
+                    return a < b
+                if isinstance(op, ast.LtE):
+                    return a <= b
+                if isinstance(op, ast.Gt):
+                    return a > b
+                if isinstance(op, ast.GtE):
+                    return a >= b
+                if isinstance(op, ast.In):
+                    return a in b
+                if isinstance(op, ast.NotIn):
+                    return a not in b
+            except TypeError:
+                raise NotConst('compare')
+            raise NotConst('compare')
         if isinstance(e, ast.Call):
             fn = None
             try:
